@@ -285,6 +285,10 @@ func concCase(in caseIn, name string) {
 		if c == nil {
 			break
 		}
+		// the daemon's send buffer stops growing with the traffic: every round's frame blocks
+		if !d.VerifSetClientSendBuffer(c.conn.LocalAddr().String(), flushSndBuf) {
+			lib.Fatalf("VerifSetClientSendBuffer: the daemon has no connection from %s", c.conn.LocalAddr())
+		}
 		tags = append(tags, f.tags("slow:")...)
 		slows = append(slows, &slowC{c: c, held: make(chan struct{}), resume: make(chan struct{}), done: make(chan struct{})})
 	}
